@@ -609,7 +609,12 @@ func (p *Printer) bare(v *model.Value, inSexp bool) string {
 		sb.WriteString("(")
 		for i, k := range v.Kids {
 			if i > 0 {
-				sb.WriteString(p.reqWS())
+				if p.C.Flip("ws:comment-adjacent") {
+					// a comment alone separates two tokens, an operator in front of it included
+					sb.WriteString(p.comment() + p.optWS())
+				} else {
+					sb.WriteString(p.reqWS())
+				}
 			} else {
 				sb.WriteString(p.optWS())
 			}
@@ -660,10 +665,9 @@ func (p *Printer) sepAfter(k *model.Value) string {
 	if ws == "" {
 		return ""
 	}
-	if (k == nil || k.Kind != model.Symbol) && p.C.Flip("ws:comment-adjacent") {
-		// the comment (if any) directly follows the token (never after a symbol: an operator
-		// would swallow the comment start): every Ion implementation treats the
-		// start of a comment as a token terminator
+	if p.C.Flip("ws:comment-adjacent") {
+		// the comment (if any) directly follows the token, an operator symbol included: the
+		// start of a comment ends every token
 		return strings.TrimLeft(ws, " \t\r\n\v\f")
 	}
 	return " " + ws
